@@ -81,6 +81,15 @@ def run(chk):
             st, cs, k = {"velocity": 100.0, "alpha": 1.0, "beta": 0.0}, {}, 0.3
             sd.setdefault("solver", {})["impingement_threshold"] = 1e-3
             chk.count("forced=coplanar-tail-impingement-threshold")
+        if it == 8:
+            # winglets staggered against the tip of the wing by a few thousandths of a chord: whether two segments share one lifting line is a
+            # matter of the description, not of how large the offset is in the unit of length
+            ac = gen.simple_wing_aircraft(N=4, reid=True, sweep=20.0, dihedral=5.0)
+            del ac["wings"]["v_stab"]
+            ac["wings"]["winglet"] = {"ID": 4, "side": "both", "is_main": True, "connect_to": {"ID": 1, "location": "tip", "dx": -0.004}, "semispan": 0.8,
+                                      "chord": [[0.0, 1.0], [1.0, 0.5]], "sweep": 35.0, "dihedral": 60.0, "airfoil": "af0", "grid": {"N": 3, "reid_corrections": True}}
+            st, cs, k = {"velocity": 100.0, "alpha": 4.0, "beta": 2.0}, {}, 0.2
+            chk.count("forced=staggered-winglet")
         sd2, ac2, st2 = copy.deepcopy(sd), ac, copy.deepcopy(st)
         fscale, mscale = 1.0, 1.0
         if mode == "length":
